@@ -24,16 +24,17 @@ ASSUMPTIONS = ["float-typed leaves are generated representable in the target wid
                "logical types: unknown logicalType annotations only (the logical-type clause of the statement is C16's)",
                "a field default is data like any other: an absent field is accepted when its default conforms (bytes/fixed defaults given as "
                "JSON strings do not: DESIGN O1, validate answers False and the writer raises -- consistent, observation only)"]
-PARTIAL = ["C10_writer_accepts (validate accepts => the writer encodes) is refuted at full strength (C10_writer_accepts_refuted: a foreign exception "
-           "during the branch search, the strict writer, float overflow); proved: "
-           "C10_writer_accepts_partial for the default writer under the side condition wdom (floats convert, absent default-less fields accept null "
-           "the way _accepts_null tests it -- implied by validate for parse_schema's schemas: C10_absent_field_agrees --, the validator answers on "
-           "every branch searched)",
+PARTIAL = ["C10_writer_accepts: 'everything validate accepts the writers encode' is false as it stands (C10_writer_accepts_refuted: a foreign "
+           "exception in the branch search, the strict writer's field discipline, float overflow) and is replaced by the exact "
+           "characterisation C10_writer_accepts_iff (for accepted data the writer -- default, strict or strict_allow_default -- elaborates the "
+           "datum iff wneed holds); wneed's union clause refers to the answer of the branch search (characterised by C09), it is not "
+           "re-derived from schema-level conditions",
            "the input-side hypotheses data_ok (wf_py, pyfloats_ok, wf_schema/wf_env, dflt/env_floats_ok) of C10_accepted_typed / "
            "C10_accepted_roundtrip are evaluated in-model on every case; floats_ok of the elaborated value is derived in Rocq "
            "(proofs/ElabFloats.v over proofs/FloatProofs.v) and still printed as a cross-check",
-           "C10_gate is stated for the model's Writer.write (validation precedes encoding); that no byte reaches the stream is checked on the "
-           "implementation by corr:validate-vs-writer (the container model belongs to C04-C07)"]
+           "C10_gate* are theorems about the Python-level writer model (model/ContainerPy.v pstep over model/Container.v): rejected record => "
+           "write raises, stream / pending block / count unchanged, history = history without it; the tie of that model to fastavro's "
+           "Writer is corr:validate-vs-writer here and the container correspondences of C04-C07"]
 
 
 def expr(c):
